@@ -25,6 +25,7 @@ type args struct {
 	in    string
 	n     int
 	extra string
+	only  int // system driver: run only this scenario index (-1 = all)
 	w     *bufio.Writer
 	count int
 	nt    map[[20]byte]struct{} // distinct non-trivial records (by content hash)
@@ -82,6 +83,7 @@ func main() {
 	fs.StringVar(&a.in, "in", "", "input file (TLC export / replay)")
 	fs.IntVar(&a.n, "n", 0, "number of random cases (0 = tier default)")
 	fs.StringVar(&a.extra, "x", "", "driver-specific option")
+	fs.IntVar(&a.only, "only", -1, "system driver: run only the scenario with this index (replay)")
 	fs.Parse(os.Args[2:])
 	if a.out == "" {
 		fmt.Fprintln(os.Stderr, "-out required")
